@@ -23,8 +23,13 @@ fn undefined_e(ev: &EV) -> bool {
 /// anything else happens, so which of several by-reference operands get forced
 /// is an implementation detail; multi-operand by-reference operations on such
 /// operands are not executed.
+///
+/// Only a constant *encoding* qualifies (`enc` present, native decoding fails). A derived result can be a
+/// constant without being one: `scalar_mul_le` with all-false constant bits returns the constant identity
+/// even when its operand was a witnessed invalid encoding (already unsatisfiable); that result has no model
+/// value (`elem` is None, poisoned) but reading its gadget value is legitimate.
 fn const_invalid(ev: &EV) -> bool {
-    ev.cst && ev.elem.is_none()
+    ev.cst && ev.elem.is_none() && ev.enc.is_some()
 }
 
 /// Under an adversarial prover the model's native value of a field variable
